@@ -494,6 +494,128 @@ func runFreeInner(cs Case, v *ev.Verdict) {
 	v.Trace = tr
 }
 
+// BurstCase: many pushers hammer one AtomicLIFO while a single goroutine pops.
+type BurstCase struct {
+	Pushers int   `json:"pushers"`
+	Bursts  []int `json:"bursts"` // burst sizes every pusher goes through (pushes back to back)
+}
+
+func genBurst(t *rapid.T) BurstCase {
+	return BurstCase{
+		Pushers: rapid.IntRange(2, 8).Draw(t, "pushers"),
+		Bursts:  rapid.SliceOfN(rapid.SampledFrom([]int{1, 2, 5, 20, 100}), 1, 12).Draw(t, "bursts"),
+	}
+}
+
+// runBurst checks the "Pop returns the zero value exactly when the stack is empty"
+// clause under real parallelism without a linearizability search: with a single
+// popping goroutine, every successful Pop so far is its own and complete, so at the
+// moment one of its Pops finds the stack empty exactly that many pushes have taken
+// effect; every Push that had returned before the Pop started is among them.
+func runBurst(t *testing.T, cs BurstCase) *ev.Verdict {
+	v := &ev.Verdict{}
+	cj, _ := json.Marshal(cs)
+	v.Canon = string(cj)
+	sched.Guard(func() {
+		var q cqueue.AtomicLIFO[int]
+		done := make([]atomic.Int64, cs.Pushers) // per pusher: how many of its pushes have returned
+		var wg sync.WaitGroup
+		var start, stop atomic.Bool
+		total := 0
+		for _, b := range cs.Bursts {
+			total += b
+		}
+		total *= cs.Pushers
+		for g := 0; g < cs.Pushers; g++ {
+			wg.Add(1)
+			go func() {
+				defer wg.Done()
+				for !start.Load() {
+				}
+				val := g*1000000 + 1
+				for _, b := range cs.Bursts {
+					for i := 0; i < b; i++ {
+						q.Push(val)
+						done[g].Add(1)
+						val++
+					}
+					runtime.Gosched()
+				}
+			}()
+		}
+		seen := map[int]bool{}
+		var popErr string
+		popperDone := make(chan struct{})
+		go func() {
+			defer close(popperDone)
+			per := total / cs.Pushers
+			popped := make([][]bool, cs.Pushers) // popped[g][i]: the (i+1)-th value of pusher g has been popped
+			low := make([]int, cs.Pushers)       // per pusher: index of its first value not yet popped
+			before := make([]int64, cs.Pushers)
+			for g := range popped {
+				popped[g] = make([]bool, per)
+			}
+			for !start.Load() {
+			}
+			for {
+				finished := stop.Load()
+				for g := range before {
+					before[g] = done[g].Load()
+				}
+				x := q.Pop()
+				if x == 0 {
+					// the stack was empty at some moment of this call: every value whose Push had
+					// returned before the call started must have been popped by then, and this
+					// goroutine is the only one that pops
+					for g := range before {
+						if int64(low[g]) < before[g] && popErr == "" {
+							popErr = fmt.Sprintf("Pop returned the zero value although value #%d of pusher %d, whose Push had returned before this Pop started (%d of its pushes had), has never been popped", low[g]+1, g, before[g])
+						}
+					}
+					if finished {
+						return
+					}
+					continue
+				}
+				if seen[x] && popErr == "" {
+					popErr = fmt.Sprintf("value %d was popped twice", x)
+				}
+				seen[x] = true
+				g, i := x/1000000, x%1000000-1
+				if g >= 0 && g < cs.Pushers && i >= 0 && i < per {
+					popped[g][i] = true
+					for low[g] < per && popped[g][low[g]] {
+						low[g]++
+					}
+				} else if popErr == "" {
+					popErr = fmt.Sprintf("value %d was popped but never pushed", x)
+				}
+			}
+		}()
+		start.Store(true)
+		wg.Wait()
+		stop.Store(true)
+		<-popperDone
+		if popErr != "" {
+			v.Add(P, "lifo:empty-pop-on-non-empty-stack", "%s (%d pushers, bursts %v)", popErr, cs.Pushers, cs.Bursts)
+		} else if len(seen) != total {
+			v.Add(P, "lifo:conservation", "%d values pushed, %d distinct values popped after the pushers finished and the stack was drained", total, len(seen))
+		}
+	})
+	v.SetNT(P)
+	v.Class("burst-pushers-single-popper")
+	return v
+}
+
+func TestC12Burst(t *testing.T) {
+	ev.Drive(t, ev.Runner[BurstCase]{
+		Prop: P, ReplayRuns: 200,
+		Rule: "2..8 goroutines push unique values into one AtomicLIFO in generated bursts (1..100 back to back) with real parallelism while a single goroutine pops until everything is drained; oracle: when a Pop returns the zero value every value whose Push had returned before that Pop started has been popped, no value twice or invented, all values popped in the end; non-trivial always (>= 2 pushers); distinct by case",
+		Gen:  genBurst,
+		Run:  runBurst,
+	})
+}
+
 func TestC12Controlled(t *testing.T) {
 	ev.Drive(t, ev.Runner[Case]{
 		Prop: P,
